@@ -21,7 +21,7 @@ T={
 'C17':("SerialEncode copies the subject into the first 15 bytes of the 16-byte field","subject of exactly 16 bytes","serial:header-changed"),
 'C19':("RegsToInt32SwapWords rewritten with shifts; the low word is sign-extended before the OR","swapped word order, low word with bit 15 set, high word other than 0xFFFF","modbus-conv:RegsToInt32SwapWords"),
 'C03':("updateHashHelper skips an edge it has already updated during the same write instead of XOR-ing the delta in once per path","node placed under several parents that share an ancestor (any mirror or diamond): the delta must cancel at the common ancestor","hash:"),
-'C20':("","","concurrency:"),
+'C20':("processPointsUpstream takes the handler lock (read) again before it walks upwards, inside handlers that already hold it","Stop arriving while a write handler is between its own read lock and the upward walk: Run's pending write lock blocks the second read lock, the handler never answers and Run never returns","concurrency:stop-does-not-terminate"),
 }
 here=os.path.dirname(os.path.dirname(os.path.abspath(__file__)))
 for ID in sys.argv[1:]:
